@@ -325,15 +325,22 @@ PROC_BODY = {
 }
 
 
-def process_level(ctx, res, histories, with_overlap=True):
+def process_level(ctx, res, histories, with_overlap=True, how="spec"):
+    """how = "spec": the worker's model is named in the spec; "group": it is the group's remote default
+    (`set_execmodel("thread", "main_thread_only")`) and the spec says nothing"""
     execnet = ctx.execnet
     gb = execnet.gateway_base
     group = execnet.Group()
     try:
-        gw = group.makegateway("popen//execmodel=main_thread_only")
+        if how == "group":
+            group.set_execmodel("thread", "main_thread_only")
+            gw = group.makegateway("popen")
+        else:
+            gw = group.makegateway("popen//execmodel=main_thread_only")
+        res.stat("process_level_configured_by_" + how)
         for outs in histories:
-            case = {"process_level": outs}
-            res.count(("process", tuple(outs)))
+            case = {"process_level": outs, "configured_by": how}
+            res.count(("process", how, tuple(outs)))
             res.stat("process_level_execs", len(outs))
             for k, o in enumerate(outs):
                 t0 = time.monotonic()
@@ -359,9 +366,9 @@ def process_level(ctx, res, histories, with_overlap=True):
                     res.violations.append({"case": case, "what": what, "finding": None})
                     return
         if with_overlap:
-            res.count(("process", "overlap"))
+            res.count(("process", how, "overlap"))
             res.stat("process_level_overlap")
-            case = {"process_level": "overlap"}
+            case = {"process_level": "overlap", "configured_by": how}
             ch1 = gw.remote_exec(PROC_BODY["block"])
             on_main = ch1.receive(10)
             ch2 = gw.remote_exec(PROC_BODY["ret"])
@@ -458,6 +465,9 @@ def run(ctx):
     process_level(ctx, res, PROC_HISTORIES if ctx.thorough else PROC_HISTORIES[:2], with_overlap=True)
     if res.violations:
         return res
+    process_level(ctx, res, PROC_HISTORIES if ctx.thorough else PROC_HISTORIES[:1], with_overlap=True, how="group")
+    if res.violations:
+        return res
     if not ctx.thorough:
         # every history up to length 2, a few schedules each
         hists = list(all_histories(2))
@@ -550,7 +560,7 @@ def replay(ctx, payload):
     res.rule = RULE
     case = payload["case"]
     if "process_level" in case:
-        process_level(ctx, res, PROC_HISTORIES, with_overlap=True)
+        process_level(ctx, res, PROC_HISTORIES, with_overlap=True, how=case.get("configured_by", "spec"))
         return res
     hist = case["history"]
     col = Collector(res)
